@@ -1,6 +1,7 @@
 package main
 
 import (
+	"math/big"
 	"bytes"
 	"crypto/sha256"
 	"fmt"
@@ -39,6 +40,7 @@ const (
 	eBadR
 	eUninitKey
 	eUninitSig
+	eCancelS
 	nEntryKinds
 )
 
@@ -131,6 +133,31 @@ func (e *env) buildPool(nValid int) (pool []*poolEntry, valids []*poolEntry, pro
 	pool[eBadR] = &poolEntry{name: "non-canonical R", pk: k1.pk, sig: bsig, st: v1.st}
 	pool[eUninitKey] = &poolEntry{name: "uninitialised key", pk: &sr25519.PublicKey{}, sig: v1.sig, st: v1.st}
 	pool[eUninitSig] = &poolEntry{name: "uninitialised signature", pk: k1.pk, sig: &sr25519.Signature{}, st: v1.st}
+	// the partner of "mutated s": valid#2 with its scalar moved by one in the OPPOSITE direction, so that the
+	// two errors cancel in an unweighted sum - only independent delinearisation coefficients reject the pair
+	// (added after the seeded change C12-2, a transcript RNG that never advances, passed every batch history)
+	{
+		sb2 := mustMarshal(v2.sig)
+		cs := append([]byte{}, sb2...)
+		sv := append([]byte{}, cs[32:]...)
+		sv[31] &= 0x7f
+		x := ref.FromLE(sv)
+		if ms[32]&1 == 1 { // "mutated s" is s+1 -> partner is s-1
+			x = ref.SSub(x, big.NewInt(1))
+		} else {
+			x = ref.SAdd(x, big.NewInt(1))
+		}
+		copy(cs[32:], ref.LE32(x))
+		cs[63] |= 0x80
+		csig, err := sr25519.NewSignatureFromBytes(cs)
+		if err != nil {
+			problems = append(problems, [2]string{"Signature.UnmarshalBinary/accept", "canonical cancelling signature rejected"})
+			csig = v2.sig
+		}
+		cp := &poolEntry{name: "cancelling s (partner of mutated s)", pk: k2.pk, sig: csig, st: v2.st, wellFormed: true}
+		e.fillRef(cp, k2.ver, refTranscript(e.srcs[1], []byte(""), e.msgOf(200)), cs)
+		pool[eCancelS] = cp
+	}
 	// distinct valid entries for the size sweep
 	valids = []*poolEntry{v1, v2}
 	for i := 2; i < nValid; i++ {
